@@ -330,6 +330,46 @@ class _SuperProxy(Host):
         raise AttributeError(name)
 
 
+class _HostSortedList(Host):
+    """sortedcontainers.SortedList as a host object (the part the weighted-sum scheduler uses)."""
+
+    def __init__(self, iterable=None):
+        self._xs = sorted(iterable) if iterable is not None else []
+
+    def add(self, x):
+        import bisect
+        bisect.insort_right(self._xs, x)
+
+    def discard(self, x):
+        import bisect
+        i = bisect.bisect_left(self._xs, x)
+        if i < len(self._xs) and self._xs[i] == x:
+            del self._xs[i]
+
+    def remove(self, x):
+        import bisect
+        i = bisect.bisect_left(self._xs, x)
+        if i < len(self._xs) and self._xs[i] == x:
+            del self._xs[i]
+        else:
+            raise InterpRaise('ValueError')
+
+    def pop(self, index=-1):
+        return self._xs.pop(index)
+
+    def __getitem__(self, i):
+        return self._xs[i]
+
+    def __len__(self):
+        return len(self._xs)
+
+    def __iter__(self):
+        return iter(list(self._xs))
+
+    def __contains__(self, x):
+        return x in self._xs
+
+
 class _HostStringIO(Host):
     """io.StringIO as a host object (text streams handed to the bench reader)."""
 
@@ -416,6 +456,7 @@ class Interp:
             'logging.getLogger': lambda *a: _NullLogger(),
             'collections.defaultdict': __import__('collections').defaultdict,
             'io.StringIO': _HostStringIO,
+            'sortedcontainers.SortedList': _HostSortedList,
             'copy.deepcopy': _deepcopy,
             'collections.deque': __import__('collections').deque,
             'more_itertools.powerset': lambda xs: (lambda s_: __import__('itertools').chain.from_iterable(__import__('itertools').combinations(s_, r) for r in range(len(s_) + 1)))(list(xs)),
